@@ -226,6 +226,13 @@ def open_archive(kind, path, cached):
         return ka.null_archive('n', cached=cached)
     if kind == 'dict':
         return ka.dict_archive('d', cached=cached)
+    if kind.startswith('refusing'):
+        # an in-memory archive that cannot store one particular value (as a json file cannot store a set, sqlite an
+        # over-long integer): the write raises, all-or-nothing.  The value is set by the caller (Sys)
+        a = ka.dict_archive('d', cached=cached)
+        target = a.archive if cached else a
+        target.__class__ = _refusing_class(type(target))
+        return a
     if kind == 'file':
         return ka.file_archive(path + '.pkl', cached=cached)
     if kind == 'filejson':
@@ -252,6 +259,30 @@ def open_archive(kind, path, cached):
     if kind == 'sqlmem':
         return ka.sqltable_archive(None, cached=cached)
     raise ValueError(kind)
+
+
+_REFUSING = {}
+
+
+def _refusing_class(base):
+    if base not in _REFUSING:
+        class Refusing(base):
+            refused = ()
+
+            def __setitem__(self, key, value):
+                if any(value == r and type(value) is type(r) for r in self.refused):
+                    raise ValueError('this archive cannot store %r' % (value,))
+                return base.__setitem__(self, key, value)
+
+            def update(self, adict, **kwds):
+                items = dict(adict, **kwds)
+                for value in items.values():
+                    if any(value == r and type(value) is type(r) for r in self.refused):
+                        raise ValueError('this archive cannot store %r' % (value,))
+                return base.update(self, items)
+        Refusing.__name__ = base.__name__
+        _REFUSING[base] = Refusing
+    return _REFUSING[base]
 
 
 PERSISTENT = ('file', 'filejson', 'filesrc', 'filesrcbare', 'dir', 'dirjson', 'dirfast', 'dirjsonfast', 'dirfastmm', 'dirsrc', 'sql')
@@ -323,7 +354,8 @@ class Sys(object):
             self.tfn = make_function(self.tcfg, self.tlog, {})
             self.tbindings = [binding(c, self.tcfg) for c in self.calls]
             b = cfg['backend']
-            tcache = None if b == 'none' else {} if b == 'plaindict' else open_archive('dict', 'twin', cached=True)
+            tcache = None if b == 'none' else {} if b == 'plaindict' else \
+                open_archive('sqlmem', 'twin', cached=True) if b == 'sqlmem' else open_archive('dict', 'twin', cached=True)
             mode = cfg['twin']
             if mode == 'same-decorator':
                 self.wrapper = self._decorate(self.fn, self.cacheobj)
@@ -348,6 +380,10 @@ class Sys(object):
         if ck not in _KMAP_CACHE:
             _KMAP_CACHE[ck] = self._keys()
         self.kmap = _KMAP_CACHE[ck]
+        if self.kind.startswith('refusing'):
+            # the archive cannot store the result of the call with table index 1
+            arch = self.wrapper.__cache__().archive
+            arch.refused = (expected_result(cfg, self.bindings[1]),)
         init = cfg.get('init', 'empty')
         if init == 'seeded_archive':
             arch = self.wrapper.__cache__().archive
@@ -789,7 +825,7 @@ class Result(object):
 
 def cfg_name(cfg):
     keys = ('module', 'alg', 'maxsize', 'maxsize_pos', 'purge', 'keymap', 'backend', 'init',
-            'ignore', 'tol', 'deep', 'result', 'fn', 'args', 'nargs', 'narrow', 'twin', 'scale', 'longuse', 'deco_via')
+            'ignore', 'tol', 'deep', 'result', 'fn', 'args', 'nargs', 'narrow', 'twin', 'scale', 'longuse', 'deco_via', 'hits_only')
     return ' '.join('%s=%s' % (k, cfg[k]) for k in keys if k in cfg and cfg[k] not in (None, False))
 
 
